@@ -41,6 +41,8 @@ def c19_case_st(draw):
         kind = draw(st.sampled_from(['app', 'app', 'proc', 'all']))
         calls.append([kind, draw(st.integers(0, nprog - 1)), draw(st.sampled_from(STRATEGIES))])
     case['calls'] = calls
+    # a program that has been started with extra arguments and stopped again before the predictions
+    case['pre_args'] = draw(st.one_of(st.none(), st.integers(0, nprog - 1)))
     case['real'] = draw(st.sampled_from(['app', 'app', 'proc', 'all']))
     case['real_k'] = draw(st.integers(0, nprog - 1))
     return case
@@ -138,6 +140,15 @@ def check_case(case):
         req = w.instances[case['requester']]
         nontrivial = False
         predictions = {}
+        if case.get('pre_args') is not None:
+            spec = f"tgt:t{case['pre_args']}"
+            out = req.call('supvisors', 'start_process', case['strategy'], spec, '-x 42', False)
+            for _ in range(4):
+                s.runner.step({})
+            req.call('supvisors', 'stop_process', spec, False)
+            for _ in range(6):
+                s.runner.step({})
+            classes.append(f'pre-args:{out[0]}')
         for kind, k, strategy in case['calls']:
             test_method, _real, args = call_args(kind, k, strategy)
             s1 = snapshot(req)
